@@ -35,7 +35,7 @@ _HEADER0 = ("From Attrs Require Import Base Core.Attr C07.Model C07.Corr.\n"
 HEADER = _HEADER0 + "Definition cvp : list string := [].\n"   # replaced by pre_build()
 RULE = ("class hierarchies of 1..4 class statements (plus up to 3 extra front-end variants of one of "
         "them), depth <= 3, single and multiple inheritance incl. diamonds and plain classes in "
-        "between, field names from {a,b,c,_d,__e,_a}; every decorated class in {attr.s legacy, "
+        "between, field names from {a,b,c,_d,__e,_a,count,index}; every decorated class in {attr.s legacy, "
         "attr.s(collect_by_mro=True), define (auto_attribs inferred/True/False, slots on/off), "
         "make_class (list/dict), these=} x {attr.ib in body (incl. pre-created objects whose creation "
         "order differs from the textual order), annotations (plain / field / ClassVar in 12 spellings, "
@@ -60,8 +60,10 @@ ASSUMPTIONS = ["field_transformer hooks are functions of the attribute list they
                "(counters of the entries of one body are pairwise distinct)",
                "__attrs_attrs__ is only written by the attrs decorators"]
 
-NAME_POOL = ["a", "b", "c", "_d", "__e", "_a"]
-NAME_W = [6, 6, 5, 3, 2, 1]
+# `count` / `index`: the only public attributes of tuple - name access on fields(C) must still
+# give the Attribute (the by-name property shadows the tuple method)
+NAME_POOL = ["a", "b", "c", "_d", "__e", "_a", "count", "index"]
+NAME_W = [6, 6, 5, 3, 2, 1, 2, 2]
 DOCUMENTED = ["typing.ClassVar", "t.ClassVar", "ClassVar", "typing_extensions.ClassVar"]
 
 # annotation source texts: (text, is a type we also use for type=)
@@ -779,7 +781,7 @@ def gen_ft(rng, policy, vtags):
     if k == "add":
         fs = gen_field(rng, policy, vtags)
         fs["fsugar"] = False
-        return ["add", rng.choice(["z", "a", "b", "_q"]), fs]
+        return ["add", rng.choice(["z", "a", "b", "_q", "index"]), fs]
     if k == "rename":
         return ["rename", rng.choice(["_r", "2"])]
     return [k]
@@ -1282,6 +1284,22 @@ def rt_evolve_metadata_isolated():
             return "copy/pickle of an Attribute changed its metadata: %r" % (clone.metadata,)
 
 
+def rt_tuple_method_names():
+    """Fields named like the public tuple methods are still addressable by name."""
+    for label, mk in (("attr.s", lambda: attr.s(type("C", (), {"count": attr.ib(default=1), "index": attr.ib(default=2)}))),
+                      ("define", lambda: attrs.define(type("C", (), {"count": attrs.field(default=1),
+                                                                       "index": attrs.field(default=2)}))),
+                      ("make_class", lambda: attr.make_class("C", {"count": attr.ib(default=1),
+                                                                   "index": attr.ib(default=2)}))):
+        C = mk()
+        D = attr.s(collect_by_mro=True)(type("D", (C,), {"z": attr.ib(default=3)}))
+        for K in (C, D):
+            f = attr.fields(K)
+            for i, n in enumerate(("count", "index")):
+                if getattr(f, n) is not f[i] or getattr(getattr(f, n), "default", None) != i + 1:
+                    return "%s: fields(%s).%s is %r, not the Attribute at index %d" % (label, K.__name__, n, getattr(f, n), i)
+
+
 def rt_attribute_delattr():
     for label, C, D, *_ in _rt_matrix():
         a = attr.fields(D).r
@@ -1300,5 +1318,6 @@ RUNTIME = {
     "RT_C07_metadata_readonly_and_isolated": rt_metadata_readonly_and_isolated,
     "RT_C07_these_and_validators_isolated": rt_these_and_validators_isolated,
     "RT_C07_evolve_metadata_isolated": rt_evolve_metadata_isolated,
+    "RT_C07_tuple_method_names": rt_tuple_method_names,
     "RT_C07_attribute_delattr": rt_attribute_delattr,
 }
